@@ -636,7 +636,8 @@ func c19Free(idx, n, c int, rng *rand.Rand, hold string, holdDur time.Duration, 
 	if jerr != nil {
 		return nil, jerr
 	}
-	if !r.s.waitFor(20*time.Second, r.allDone) {
+	// the patience covers the hold itself plus 20 s
+	if !r.s.waitFor(20*time.Second+holdDur, r.allDone) {
 		res.viol("stall", "free-running mesh formation does not terminate (n=%d c=%d, max gate delay %dus, one thread held %v at %q)", n, c, r.s.maxDelay, holdDur, hold)
 		return res, nil
 	}
